@@ -11,6 +11,8 @@ package main
 // structs (see tryReplay); everything else is reported with no-failing-input-found.
 
 import (
+	"regexp"
+	"strconv"
 	"context"
 	"encoding/json"
 	"fmt"
@@ -34,6 +36,16 @@ func runReplay(repo, file string) int {
 	}
 	fmt.Printf("property   %v\nobligation %v\nposition   %v\nclause     %v\nstatus     %v (%v)\npath       %v\n",
 		r["property"], r["obligation"], r["pos"], r["clause"], r["status"], r["solver"], r["trace"])
+	if gt, ok := r["go_test"].(map[string]any); ok {
+		src, _ := gt["source"].(string)
+		pkg, _ := gt["package_dir"].(string)
+		name, _ := gt["test"].(string)
+		out, failed := runOverlayTest(repo, pkg, src, name)
+		fmt.Printf("real code  go test -run %s in %s: failed=%v\n%s\n", name, pkg, failed, out)
+		if failed {
+			return 1
+		}
+	}
 	still := true
 	if q, _ := r["query"].(string); q != "" {
 		if _, err := os.Stat(q); err != nil {
@@ -50,16 +62,6 @@ func runReplay(repo, file string) int {
 			}
 		} else {
 			fmt.Println("re-run     query file missing:", q)
-		}
-	}
-	if gt, ok := r["go_test"].(map[string]any); ok {
-		src, _ := gt["source"].(string)
-		pkg, _ := gt["package_dir"].(string)
-		name, _ := gt["test"].(string)
-		out, failed := runOverlayTest(repo, pkg, src, name)
-		fmt.Printf("real code  go test -run %s in %s: failed=%v\n%s\n", name, pkg, failed, out)
-		if failed {
-			return 1
 		}
 	}
 	if still {
@@ -97,6 +99,43 @@ func runOverlayTest(repo, pkg, src, name string) (string, bool) {
 	return s, failed
 }
 
+// tryReplay builds a concrete input from a solver model of the failed obligation and runs the real function on it.
 func tryReplay(p *Prog, o *Obligation, replayFile, repo string) (bool, any) {
-	return false, map[string]any{"attempted": false, "reason": "no replay template for this function; solver output and query attached"}
+	src, pkg, how, reason := buildReplayTest(p, o, filepath.Dir(replayFile))
+	if reason != "" {
+		return false, map[string]any{"attempted": false, "reason": reason, "model_from": how}
+	}
+	plan := lastPlan
+	skip := map[int]bool{}
+	var out string
+	var failed bool
+	lineRe := regexp.MustCompile(`replay_test\.go:(\d+):`)
+	for attempt := 0; attempt < 4; attempt++ {
+		out, failed = runOverlayTest(repo, pkg, src, "TestGovcReplay")
+		if failed || !strings.Contains(out, "[build failed]") {
+			break
+		}
+		// drop the clauses whose (untyped) translation does not compile and try again
+		dropped := false
+		for _, m := range lineRe.FindAllStringSubmatch(out, -1) {
+			n, _ := strconv.Atoi(m[1])
+			if ci := plan.checkAtLine(n); ci >= 0 && !skip[ci] {
+				skip[ci] = true
+				dropped = true
+			}
+		}
+		if !dropped {
+			break
+		}
+		src = plan.render(skip)
+	}
+	info := map[string]any{"attempted": true, "model_from": how, "reproduced_on_real_code": failed, "output": out, "clauses_checked": len(plan.checks) - len(skip)}
+	if !failed && strings.Contains(out, "[build failed]") {
+		info["note"] = "generated test did not compile"
+		info["source"] = src
+	}
+	if failed {
+		info["go_test"] = map[string]any{"source": src, "package_dir": pkg, "test": "TestGovcReplay"}
+	}
+	return failed, info
 }
